@@ -48,9 +48,13 @@ Entities ==
                       n \in {Id("x", 1), Id("f1", 2), Id("l0", 2), Id("main", 4)},
                       g \in {-1, 0, 1, 10}, c \in {-1}, d \in {""}}
         lambdas == {[k |-> "lambda", name |-> Id("", 0), idx |-> n, gen |-> g, ct |-> c, data |-> d] :
-                      n \in {0, 1, 10, 999}, g \in {-1, 0, 10}, c \in {-1}, d \in {""}}
-        comptimes == {[k |-> kk, name |-> Id("x", 1), idx |-> 1, gen |-> g, ct |-> c, data |-> d] :
-                      kk \in {"global", "lambda"}, g \in {-1, 1}, c \in {0, 1, 10}, d \in {"", "str", "1"}}
+                      n \in {0, 1, 10, 11, 999}, g \in {-1, 0, 1, 10}, c \in {-1}, d \in {""}}
+        \* adjacent numeric parts (lambda index, generic id, comptime index) must stay separable:
+        \* (1, 10) and (11, 0) spell the same digit string
+        comptimes0 == {[k |-> kk, name |-> Id("x", 1), idx |-> n, gen |-> g, ct |-> c, data |-> d] :
+                      kk \in {"global", "lambda"}, n \in {1, 11}, g \in {-1, 1, 11}, c \in {0, 1, 10},
+                      d \in {"", "str", "1"}}
+        comptimes == {e \in comptimes0 : e.k = "lambda" \/ e.idx = 1}     \* a global has no index
     IN globals \cup lambdas \cup comptimes
 
 DirSeqs == {<<>>} \cup {<<DirPool[a]>> : a \in 1..Len(DirPool)}
@@ -60,7 +64,11 @@ Paths == {[mod |-> FALSE, dirs |-> ds, file |-> FilePool[f]] : ds \in DirSeqs, f
                   m \in 1..Len(ModPool), ds \in {<<>>, <<DirPool[1]>>, <<DirPool[4]>>}, f \in 1..Len(FilePool)}
           \cup {[mod |-> TRUE, dirs |-> <<ModPool[m]>> \o ds, file |-> FilePool[1]] :
                   m \in 1..Len(ModPool), ds \in {<<>>, <<DirPool[1]>>}}
-Descriptors == {[path |-> p, ent |-> e] : p \in Paths, e \in Entities}
+(* all-digit path components: 12/3.capy and 1/23.capy *)
+NumDirs == <<C("1", "1", 1, TRUE), C("12", "12", 2, TRUE)>>
+NumFiles == <<C("3.capy", "3", 1, TRUE), C("23.capy", "23", 2, TRUE)>>
+NumPaths == {[mod |-> FALSE, dirs |-> <<NumDirs[a]>>, file |-> NumFiles[f]] : a \in 1..2, f \in 1..2}
+Descriptors == {[path |-> p, ent |-> e] : p \in Paths \cup NumPaths, e \in Entities}
 
 --------------------------------------------------------------------------------
 (* (M) the mangling scheme as coded *)
@@ -81,7 +89,7 @@ FinalParts(e) ==
         ELSE <<>>)
 Lower(k) == CASE k = "M" -> "m" [] k = "F" -> "f" [] k = "N" -> "n" [] k = "G" -> "g"
               [] k = "L" -> "l" [] k = "Z" -> "z" [] k = "I" -> "i"
-Text(c) == IF FixDotToDash /\ c.raw # c.norm /\ c.raw \notin {"m.capy", "1.capy", "f1.capy"} THEN c.raw ELSE c.norm
+Text(c) == IF FixDotToDash /\ c.raw # c.norm /\ c.raw \notin {"m.capy", "1.capy", "f1.capy", "3.capy", "23.capy"} THEN c.raw ELSE c.norm
 AddPart(pt) == IF pt.c.dig
                THEN (IF FixDigitRule THEN ToString(pt.c.len) \o "_" \o Text(pt.c)
                      ELSE ToString(pt.c.len + 1) \o Lower(pt.kind) \o Text(pt.c))
